@@ -10,32 +10,40 @@ CONFIG = dict(
                "every run: all goroutines are parked at build-tag yield points before each atomic step, a controller drives seeded schedules (uniform, sticky, "
                "adversarial around the store-idle/re-read window, consumer-first), and after EVERY step the five shared words, the consumer's program point, the "
                "dispatcher queue and the invoked message are compared with the model; the property predicate runs on the implementation's own trace.",
-    level_note="Partial: atomics are assumed sequentially consistent single steps; mpsc.Push is one step (its swap/link window is not hooked); goring is "
-               "treated as a FIFO; run()'s plain read of userMessages, the >=100000-queued Gosched branch and the recover/EscalateFailure path are not modelled; "
+    level_note="Partial: atomics are assumed sequentially consistent single steps; mpsc.Push is one step (its swap/link window is not hooked); goring/mpsc are "
+               "FIFO lists in the mailbox model (their sequential refinement to a list, ring growth included, is proved: ring_*/mpsc_* theorems, tied to the real queues by the ring run; their concurrent behaviour is assumed); run()'s plain read of userMessages, the >=100000-queued Gosched branch and the recover/EscalateFailure path are not modelled; "
                "the dispatcher is the single-consumer scheDisp (one goroutine runs scheduled functions in turn). The Go scheduler itself is replaced by the controller.",
-    lean_targets=["Cell2v.Props.C09", "modeld_c09"],
+    lean_targets=["Cell2v.Props.C09", "Cell2v.Props.C09Ring", "modeld_c09"],
     driver="modeld_c09",
     driver_root="Cell2v.Driver.C09",
     audit="Audit/C09.lean",
-    required_theorems=["single_runner", "delivered_prefix", "no_lost_wakeup", "quiescent_all_delivered", "system_first", "pause_has_helper"],
+    required_theorems=["single_runner", "delivered_prefix", "no_lost_wakeup", "quiescent_all_delivered", "system_first", "pause_has_helper",
+                       "ring_wf_init", "ring_push_refines", "ring_pop_refines", "ring_popMany_refines", "ring_capacity", "ring_refines_fifo",
+                       "mpsc_push_refines", "mpsc_pop_refines"],
     harness_pkg="./c09",
     mode="diff",
     reset_prefix="reset",
     runs={
-        "quick": [dict(name="main", env={"VERIF_N": "1500"}, timeout=240)],
-        "thorough": [dict(name="main", env={"VERIF_N": "40000"}, timeout=1500),
+        "quick": [dict(name="ring", test="TestRing", env={"VERIF_N": "150"}, timeout=120),
+                  dict(name="main", env={"VERIF_N": "1500"}, timeout=240)],
+        "thorough": [dict(name="ring", test="TestRing", env={"VERIF_N": "4000"}, timeout=120),
+                     dict(name="main", env={"VERIF_N": "40000"}, timeout=1500),
                      dict(name="seed2", env={"VERIF_N": "40000"}, seed_offset=7919, timeout=1500)],
     },
     trivial=r"^(ok|bad-op)?$",
     rule="each case: 1-3 user posters (1-3 messages each, sometimes 12-21 to force ring growth, 1/6 slow handlers that exceed the 10 ms frame budget in "
          "virtual time) and optionally a system poster (normal/suspend/resume), run to quiescence under a seeded schedule of atomic steps; one evaluation = "
-         "one granted atomic step of the real mailbox compared with the model; distinct = distinct (step, resulting shared state) pairs; non-trivial = every step",
+         "one granted atomic step of the real mailbox compared with the model; distinct = distinct (step, resulting shared state) pairs; non-trivial = every step. "
+         "Run ring: the real goring.Queue / mpsc.Queue driven sequentially — capacities 1..12 x head rotation x every fill level (one pop there, push through a growth, "
+         "PopMany below/at/above the length, drain, pop on empty) plus random cases with 1-4 growths (up to 192 slots), bursts to/just across the boundary, PopMany counts "
+         "0/1/len-1/len/len+1/len+5; one evaluation = one queue operation compared with the ring model and checked against a plain list",
     trusted_base=[
         "Lean 4.33.0 kernel; axioms audited per theorem (propext, Classical.choice, Quot.sound)",
         "hand-written models lean/Cell2v/Model/Mailbox.lean (Abs + Fine) tied to actorex/mailbox/mailbox.go by step-by-step replay (harness/c09 + modeld_c09)",
         "build-tag hook b43fb0c (vy yield points, VerifState) — add-only, empty when the tag is off",
         "go1.26.8 testing/synctest for 'all goroutines parked' detection and virtual time",
-        "sync/atomic sequential consistency; mpsc and goring internals (one step each)",
+        "sync/atomic sequential consistency; mpsc and goring operations are atomic single steps (goring: mutex; mpsc: swap/link window not hooked)",
+        "hand-written models lean/Cell2v/Model/Ring.lean (goring ring buffer, sequential mpsc) tied to actorex/queue/{goring,mpsc} by harness/c09/ring_test.go",
     ],
     assumptions=[
         "dispatcher = one goroutine running scheduled functions in turn (actorex/disp/schedisp.go); C04 covers that",
